@@ -6,7 +6,7 @@
 From Coq Require Import Reals String List Bool ZArith QArith.
 From SpdVerif Require Import Base.Rx Base.CfgNumOps Spec.ConfigSpec Gen.ConfigTables Spec.ConfigUnits Model.ConfigTypes Model.Config
   Model.NumInst Model.Regex Model.Names Gen.ConfigConv
-  Proofs.C16_names Proofs.C16_round Proofs.C16_roundtrip Proofs.C16_stable Proofs.C16_defaults Proofs.Regex.
+  Proofs.C16_names Proofs.C16_round Proofs.C16_roundtrip Proofs.C16_stable Proofs.C16_defaults Proofs.Regex Gen.ConfigSites Gen.CfgSteps Proofs.CfgSteps_eq.
 Import ListNotations.
 Local Open Scope R_scope.
 
@@ -57,6 +57,26 @@ Proof. exact pol_parses_any_case. Qed.
 
 (* try_as_spdc_steps is SPDCConfig::try_as_spdc after the optional up-front wavelength validation (Props/C17.v: C17_entry):
    try_as_spdc V c = try_as_spdc_steps c whenever the check does not fire. *)
+(* ================================================================================================ the model IS the source *)
+(* The statement-by-statement translation of SPDCConfig::try_as_spdc GENERATED from the source (Gen/CfgSteps.v) equals the model
+   every theorem below is about; likewise the bodies of the helpers it calls.  (try_as_spdc_steps is try_as_spdc after the
+   optional up-front wavelength validation, Props/C17.v: C17_entry.) *)
+Theorem C16_try_as_spdc_is_generated : forall num (o : NumOps num) U K minpos rj (c : spdc_cfg num),
+  gen_try_as_spdc_steps o U K minpos rj c = try_as_spdc_steps o U K minpos rj c.
+Proof. exact gen_try_as_spdc_steps_eq. Qed.
+
+Theorem C16_helpers_are_generated : forall num (o : NumOps num) K minpos,
+  (forall cfg, gen_crystal_of_cfg o cfg = crystal_of_cfg o cfg) /\
+  (forall p cs, gen_pump_of_cfg o p cs = pump_of_cfg o p cs) /\
+  (forall c cs, gen_signal_of_cfg o K c cs = beam_of_cfg o K (signal_polarization (cs_pm cs)) c cs) /\
+  (forall c cs, gen_idler_of_cfg o K c cs = beam_of_cfg o K (idler_polarization (cs_pm cs)) c cs) /\
+  (forall a, gen_apod_of_cfg o a = apod_of_cfg o a) /\
+  (forall p signal pump cs, gen_poling_of_cfg o K minpos p signal pump cs = poling_of_cfg o K minpos cfg_rejects_bad_period p signal pump cs).
+Proof.
+  exact (fun num o K minpos => conj (gen_crystal_of_cfg_eq num o) (conj (gen_pump_of_cfg_eq num o) (conj (gen_signal_of_cfg_eq num o K)
+        (conj (gen_idler_of_cfg_eq num o K) (conj (gen_apod_of_cfg_eq num o) (gen_poling_of_cfg_eq num o K minpos)))))).
+Qed.
+
 (* ================================================================================================ round trip *)
 (* the generated setup -> configuration conversion IS the unit table *)
 (* (export_rounds_idler_waist_position: whether the code rounds the idler waist position, read off the source; the unit table's
@@ -175,6 +195,8 @@ Print Assumptions C16_pm_parse_sound.
 Print Assumptions C16_pm_inverse.
 Print Assumptions C16_pol_parses.
 Print Assumptions C16_pol_any_case.
+Print Assumptions C16_try_as_spdc_is_generated.
+Print Assumptions C16_helpers_are_generated.
 Print Assumptions C16_as_config_is_unit_table.
 Print Assumptions C16_roundtrip.
 Print Assumptions C16_as_config_is_unit_table_now.
